@@ -47,7 +47,7 @@ func alg(no int) string {
 type server struct {
 	mu     sync.Mutex
 	set    []skey
-	fault  int             // 0 ok, 1 500, 2 garbage
+	fault  int             // 0 ok, 1 500, 2 garbage, 3 the document followed by junk, 4 503 with the document as body
 	served map[string]bool // "kid/no/use" ever served in a 200 answer
 	hits   atomic.Int64
 }
@@ -78,6 +78,12 @@ func (s *server) ServeHTTP(w http.ResponseWriter, r *http.Request) {
 	}
 	entries = append(entries, json.RawMessage(`{"kty":"XYZ","kid":"kx","use":"sig"}`))
 	b, _ := json.Marshal(map[string]any{"keys": entries})
+	switch fault {
+	case 3: // not a JSON document as a whole: must count as a failed download
+		b = append(b, []byte("\n<!-- proxy -->")...)
+	case 4:
+		w.WriteHeader(503)
+	}
 	w.Write(b)
 }
 
@@ -120,7 +126,7 @@ func main() {
 					srv.set = append(srv.set, pool[r.Intn(len(pool))])
 				}
 			}
-			srv.fault = hx.Pick(r, 0, 0, 0, 0, 1, 2)
+			srv.fault = hx.Pick(r, 0, 0, 0, 0, 0, 1, 2, 3, 3, 4)
 			srv.mu.Unlock()
 		}
 	}()
